@@ -173,6 +173,7 @@ func init() {
 			{Name: "parallel", Race: true, Run: codecParallel("newick")},
 			{Name: "histories", Run: codecHistories("newick")},
 			{Name: "readerzoo", TShards: 4, Run: zooUnit("newick")},
+			{Name: "exactsizes", QShards: 2, TShards: 4, Run: exactSizeUnit("newick")},
 			firstCallUnit(firstCodec("newick")),
 		},
 	})
